@@ -346,7 +346,8 @@ def execute(case, se, out, trace):
             out.count("skip:prefix-number-grammar-ambiguous")
         else:
             cut = gp.longest_valid_prefix(s, continuation=pre is not None)
-            ref = se.Path()
+            # the valid prefix is parsed by a pristine instance of the library (nothing kept from earlier calls)
+            ref = core.fresh_se().Path()
             try:
                 if pre is not None:
                     ref.parse(pre)
